@@ -173,7 +173,13 @@ def run(cx: Cx):
         cx.violation('R-GUARD', fn.qualname, 'seam-distance-needs-wrap_env-and-extents',
                      "get_agents_at is documented to respect the toroidal mode but never reads wrap_env nor an extent: in a "
                      "wrapping world distance is not measured around the seam", where=cx.where(fn), reads=sorted(names))
-    from .common import check_no_stateful_memo
+    from .common import check_no_stateful_memo, include_premises
     check_no_stateful_memo(cx)
+    from .common import check_overrides_forward
+    check_overrides_forward(cx, fn.qualname.rsplit('.', 1)[0], ['get_agents_at'])
+    # the position tested is the agent's own PositionComponent: agent[PositionComponent] is the exact-key lookup C03 verifies (a
+    # look-up that also answers for subclasses, or for another key, tests some other component's coordinates)
+    include_premises(cx, ['C03'], "the position tested is the agent's PositionComponent: component look-up by exact type",
+                     only=lambda o: o.rule in ('R-GUARD', 'R-FWD') and ('get_component' in (o.function or '') or '__getitem__' in (o.function or '')))
 
 
